@@ -357,6 +357,12 @@ def enumerate_edits(env, rng):
                 yield ("leaf-same-type", "set", path, not v, None)
             elif isinstance(v, int):
                 yield ("leaf-same-type", "set", path, v + rng.choice([1, -1, 10]), None)
+                if v != 0:
+                    yield ("leaf-sign-flip", "set", path, -v, None)
+            elif isinstance(v, float):
+                yield ("leaf-same-type", "set", path, v + rng.choice([0.5, -0.25, 1.0]), None)
+                if v != 0:
+                    yield ("leaf-sign-flip", "set", path, -v, None)
             if v is not None:
                 yield ("leaf-type-change", "set", path, None,
                        "derived-regime" if path == ["doc", "$regime"] and v == supplier_cc else spelling_note(v, "set", None))
@@ -537,6 +543,10 @@ def run(c):
             d["notes"] = [{"key": "general", "text": "Zoë \"quoted\" / slash\ttab é\U0001F600"}]
         if rng.random() < 0.5:
             d["meta"] = {"order-ref": "M%d" % rng.randrange(1000)}
+        if rng.random() < 0.6:   # the only bare JSON numbers of a document: coordinates (floats of either sign)
+            d["supplier"]["addresses"] = [{"locality": "Madrid", "country": "ES",
+                                           "coords": {"lat": round(rng.uniform(-80, 80), rng.randint(1, 5)) or 1.5,
+                                                      "lon": round(rng.uniform(-170, 170), rng.randint(1, 5)) or -3.7}}]
     outs = run_go(["c08 envelop " + w(json.dumps(d)) for d in docs], shards=16)
     ngen_ok = 0
     for i, (d, o) in enumerate(zip(docs, outs)):
